@@ -39,6 +39,9 @@ type Clause struct {
 type LoopSpec struct {
 	Invariants []*Clause
 	Decreases  *Clause
+	// Steps are transition obligations: checked at every back edge of the loop, with iter(e)
+	// denoting the value of e at the head of the iteration; never assumed
+	Steps []*Clause
 }
 
 type Contract struct {
@@ -115,7 +118,7 @@ var clauseKW = map[string]bool{"requires": true, "ensures": true, "modifies": tr
 
 var headRe = regexp.MustCompile(`^(func|type|lemma|canary|refine)\s+(.*)$`)
 var tagsRe = regexp.MustCompile(`\[(C[0-9]+(?:\s*,\s*C[0-9]+)*)\]`)
-var labelRe = regexp.MustCompile(`^(requires|ensures|assumes|callers|invariant|decreases)(\[[^\]]*\])?\s*(.*)$`)
+var labelRe = regexp.MustCompile(`^(requires|ensures|assumes|callers|invariant|decreases|step)(\[[^\]]*\])?\s*(.*)$`)
 
 func parseTags(s string) (string, []string) {
 	m := tagsRe.FindStringSubmatchIndex(s)
@@ -422,11 +425,20 @@ func ParseContractFile(path, pkgPath string) (*PkgSpec, error) {
 				lsp = &LoopSpec{}
 				cur.Loops[n] = lsp
 			}
+			if i := strings.Index(c.Label, ";"); i >= 0 {
+				_, c.Tags = parseTags("[" + c.Label[i+1:] + "]")
+				c.Label = c.Label[:i]
+			}
 			if c.Kind == "invariant" {
 				if c.Label == "" {
 					c.Label = fmt.Sprintf("inv%d", len(lsp.Invariants))
 				}
 				lsp.Invariants = append(lsp.Invariants, c)
+			} else if c.Kind == "step" {
+				if c.Label == "" {
+					c.Label = fmt.Sprintf("step%d", len(lsp.Steps))
+				}
+				lsp.Steps = append(lsp.Steps, c)
 			} else {
 				lsp.Decreases = c
 			}
@@ -1051,6 +1063,9 @@ func (e *Engine) GenerateOverlay(ps *PkgSpec, pkg *types.Package, fnByKey map[st
 		for _, k := range lks {
 			ls := con.Loops[k]
 			for _, c := range ls.Invariants {
+				emit(c, con, loopParams, "bool")
+			}
+			for _, c := range ls.Steps {
 				emit(c, con, loopParams, "bool")
 			}
 			if ls.Decreases != nil {
